@@ -595,8 +595,13 @@ class FileSystemSink(DataSink):
         if os.path.isfile(file_path):
             raise DataSourceError("Attempted to overwrite file (!) at: {}".format(file_path))
 
-        with io.open(file_path, mode='w', encoding=encoding) as f:
-            fp_serialize(stix_obj, f, pretty=pretty, encoding=encoding, ensure_ascii=False)
+        try:
+            with io.open(file_path, mode='w', encoding=encoding) as f:
+                fp_serialize(stix_obj, f, pretty=pretty, encoding=encoding, ensure_ascii=False)
+        except Exception:
+            # Don't leave an empty or partial file behind.
+            os.remove(file_path)
+            raise
 
     def add(self, stix_data=None, version=None, pretty=True):
         """Add STIX objects to file directory.
